@@ -2,7 +2,7 @@
 # development helper: sequential build of everything of the core workstream (the checks use make)
 cd /verif/coq
 ./build.sh || exit 1
-for f in Model/Minimize Model/Shrink Model/CorrEngine Proofs/Inv Proofs/Closure Proofs/Prefix Proofs/Frame Proofs/Shortlex Proofs/Replay Proofs/ReplayTop Proofs/ShrinkProofs Proofs/EngineProofs Proofs/FuzzProofs Proofs/Signals Proofs/Bracket Proofs/Closure2 Proofs/BracketEnd Proofs/RepeatProofs Proofs/IntProofs Model/Witness Model/CorrValues Proofs/Reach Proofs/MinimizeProofs Proofs/Contract Proofs/Termination Proofs/FileProofs Proofs/FileEngine Proofs/Jsf Proofs/MinimizeMono Proofs/BiasMono Properties/C03 Properties/C12 Properties/C18 Properties/C01 Properties/C02 Properties/C08 Properties/C10 Properties/C04 Properties/C05 Properties/C07 Properties/C09 Properties/C11 Properties/C13; do
+for f in Model/Minimize Model/Shrink Model/CorrEngine Proofs/Inv Proofs/Closure Proofs/Prefix Proofs/Frame Proofs/Shortlex Proofs/Replay Proofs/ReplayTop Proofs/ShrinkProofs Proofs/EngineProofs Proofs/FuzzProofs Proofs/Signals Proofs/Bracket Proofs/Closure2 Proofs/BracketEnd Proofs/RepeatProofs Proofs/IntProofs Model/Witness Model/CorrValues Proofs/Reach Proofs/MinimizeProofs Proofs/Contract Proofs/Termination Proofs/Rejected Proofs/PruneRefines Model/Strings Model/CorrStrings Proofs/StringProofs Proofs/Glue Proofs/FileProofs Proofs/FileEngine Proofs/Jsf Proofs/MinimizeMono Proofs/BiasMono Properties/C03 Properties/C12 Properties/C18 Properties/C01 Properties/C02 Properties/C08 Properties/C10 Properties/C04 Properties/C05 Properties/C07 Properties/C09 Properties/C11 Properties/C13; do
   timeout 600 coqc -Q . Rapid -w -abstract-large-number $f.v > /tmp/buildall.log 2>&1 || { echo "FAILED $f"; cat /tmp/buildall.log | head -30; exit 1; }
 done
 echo ALL_BUILT
